@@ -25,7 +25,7 @@ ASSUMPTIONS = [
     "model asserts only what the user's calls determine (existence, parent, name, flags, assigned values, metadata keys, group membership); everything else is compared differentially live vs re-opened",
     "process kills are out of scope; names within one parent are unique by construction",
 ]
-GC_PLANS = ["default", "off", "every", "seeded"]
+GC_PLANS = ["default", "off", "every", "seeded", "aggressive"]
 REF_POLICIES = ["strong", "refetch", "drop"]
 
 
@@ -40,7 +40,7 @@ def gen_cases(tier, seed):
         cases.append(
             {
                 "kind": "history",
-                "gc": GC_PLANS[i % 4],
+                "gc": GC_PLANS[i % len(GC_PLANS)],
                 "refs": REF_POLICIES[(i // 4) % 3],
                 "n_ops": [8, 12, 18, 25][i % 4] if tier == "quick" else [10, 20, 35, 60][i % 4],
                 "profile": ["mixed", "churn", "deep", "pg"][(i // 12) % 4],
